@@ -156,6 +156,8 @@ pub fn loop_kinds(directed: bool, n: usize, root: K) -> Vec<LoopKind> {
                 } else {
                     for t in &targets {
                         v.push(LoopKind::Traversal(Cfg { kind, transpose, target: *t, meth, res: ResK::Path, alt: false }));
+                        // search() runs through helpers of its own in the library
+                        v.push(LoopKind::Traversal(Cfg { kind, transpose, target: *t, meth, res: ResK::Search, alt: false }));
                     }
                     v.push(LoopKind::Traversal(Cfg { kind, transpose, target: None, meth, res: ResK::Cycle, alt: false }));
                 }
@@ -311,6 +313,183 @@ pub fn run_case<F: Fl>(c: &LCase) -> Result<LRun, (String, String)> {
     Ok(LRun { callbacks: count.get(), fired: fired.get() })
 }
 
+/// Container-owned mode: every node is owned by a `Graph` container (the
+/// program keeps only a handle of the loop's root); at callback step `step`
+/// the closure isolates node `victim` and removes it from the container, which
+/// releases it unless the running loop itself keeps it alive.
+#[derive(Clone, Debug, Serialize, Deserialize)]
+pub struct OCase {
+    pub n: usize,
+    pub conns: Vec<(K, K)>,
+    pub root: K,
+    pub lk: LoopKind,
+    pub step: usize,
+    pub victim: K,
+}
+
+impl OCase {
+    pub fn program(&self, flavour: &str) -> String {
+        let mut s = format!("{}: ", flavour);
+        for (i, (u, v)) in self.conns.iter().enumerate() {
+            s += &format!("n{}.connect(&n{}, {}); ", u, v, i + 1);
+        }
+        s += &format!("all nodes inserted into a Graph g, the program keeps only n{}; loop over n{} [{}{}]", self.root, self.root, self.lk.name(), match self.lk {
+            LoopKind::Traversal(c) => format!(".{}{}", c.res.name(), c.target.map_or(String::new(), |t| format!(" target {}", t))),
+            _ => String::new(),
+        });
+        if self.step != EVERY {
+            s += &format!("; at callback {} do g[{}].isolate(); g.remove(&{})", self.step, self.victim, self.victim);
+        }
+        s
+    }
+}
+
+pub fn run_owned<F: Fl>(c: &OCase) -> Result<usize, (String, String)> {
+    if F::SYNC {
+        ensure_monitor();
+    }
+    let vals: Vec<i8> = (0..c.n).map(|k| default_val(k as K)).collect();
+    let w = build_world::<F>(&vals, &c.conns);
+    let g = RefCell::new(F::g_new());
+    for nd in &w.nodes {
+        F::g_insert(&mut g.borrow_mut(), nd.clone());
+    }
+    let root = w.nodes[c.root as usize].clone();
+    drop(w);
+    let budget = 4 * c.conns.len() + 8;
+    let count = Cell::new(0usize);
+    let stale: RefCell<Option<String>> = RefCell::new(None);
+    let transposed = matches!(c.lk, LoopKind::Traversal(cfg) if cfg.transpose);
+    let body = |e: &F::Edge| -> bool {
+        let step = count.get();
+        if step >= budget {
+            panic!("{}", BUDGET_MARK);
+        }
+        count.set(step + 1);
+        let (a, b, x) = F::edge_parts(e);
+        let (ka, kb) = (F::key(&a), F::key(&b));
+        let exists = if transposed {
+            F::edges_out(&b).iter().any(|y| F::edge_accessors(y) == (kb, ka, x))
+        } else if matches!(c.lk, LoopKind::EdgeLoop(1) | LoopKind::EdgeLoop(4)) {
+            F::edges_in(&b).iter().any(|y| F::edge_accessors(y) == (ka, kb, x))
+        } else {
+            F::edges_out(&a).iter().any(|y| F::edge_accessors(y) == (ka, kb, x))
+        };
+        if !exists && stale.borrow().is_none() {
+            *stale.borrow_mut() = Some(format!("callback {} was handed ({}, {}, {}), which is not an edge of the graph at that moment", step, ka, kb, x));
+        }
+        drop((a, b));
+        if step == c.step {
+            let v = F::g_get(&g.borrow(), c.victim);
+            if let Some(v) = v {
+                F::isolate(&v);
+                drop(v);
+                drop(F::g_remove(&mut g.borrow_mut(), c.victim));
+            }
+        }
+        true
+    };
+    let r = guarded(|| match c.lk {
+        LoopKind::EdgeLoop(which) => {
+            let mut b = |e: &F::Edge| {
+                body(e);
+            };
+            F::edge_loop(&root, which, budget + 1, &mut b);
+        }
+        LoopKind::Traversal(cfg) => {
+            let mut b = body;
+            let _ = F::search(&root, &cfg, &mut b);
+        }
+    });
+    let class = |code: &str| format!("{}/{}/isolate+remove-from-owning-container", c.lk.name(), code);
+    if let Err(f) = r {
+        return match &f {
+            Fail::Panic(m) if m.contains(BUDGET_MARK) => Err((class("loop-does-not-terminate"), format!("{}: more than {} callbacks", c.program(F::NAME), budget))),
+            _ => Err((class(f.kind()), format!("{}: {}", c.program(F::NAME), f.msg()))),
+        };
+    }
+    if let Some(s) = stale.borrow().clone() {
+        return Err((class("yielded-nonexistent-edge"), format!("{}: {}", c.program(F::NAME), s)));
+    }
+    let removed = c.step < count.get();
+    let after = guarded(|| -> Result<(), String> {
+        let g = g.borrow();
+        for k in 0..c.n as K {
+            match F::g_get(&g, k) {
+                Some(nd) => {
+                    if removed && k == c.victim {
+                        return Err(format!("n{} is still a member after g.remove", k));
+                    }
+                    if F::key(&nd) != k || F::pval(&nd) != default_val(k) {
+                        return Err(format!("member n{} answers key {} value {}", k, F::key(&nd), F::pval(&nd)));
+                    }
+                    let _ = (F::deg_out(&nd), F::is_orphan(&nd), F::edges_out(&nd), F::edges_in(&nd));
+                }
+                None => {
+                    if !(removed && k == c.victim) {
+                        return Err(format!("member n{} disappeared", k));
+                    }
+                }
+            }
+        }
+        let _ = (F::key(&root), F::deg_out(&root), F::edges_out(&root));
+        Ok(())
+    });
+    match after {
+        Ok(Ok(())) => Ok(count.get()),
+        Ok(Err(d)) => Err((class("handle-invalidated"), format!("{}: {}", c.program(F::NAME), d))),
+        Err(f) => Err((class(&format!("after-loop-{}", f.kind())), format!("{}: using the graph after the loop failed: {}", c.program(F::NAME), f.msg()))),
+    }
+}
+
+fn owned_sweep<F: Fl>(job: &Job, p: &LParams, out: &mut Out) {
+    let prop = job.property.as_str();
+    let all = shapes::<F>(p.n, p.max_l);
+    for (si, conns) in all.iter().enumerate() {
+        if si % job.nshards != job.shard {
+            continue;
+        }
+        out.stats.inc("shapes");
+        crate::progress::set_case(|| json!({"kind":"loopx-shape","flavour":F::NAME,"n":p.n,"conns":conns}).to_string());
+        for root in 0..p.n as K {
+            for lk in loop_kinds(F::DIRECTED, p.n, root) {
+                let base = OCase { n: p.n, conns: conns.clone(), root, lk, step: EVERY, victim: 0 };
+                out.stats.inc("evaluations");
+                let mut report = |out: &mut Out, c: &OCase, class: String, what: String| {
+                    out.report(Violation {
+                        property: prop.into(),
+                        engine: "loopx".into(),
+                        flavour: F::NAME.into(),
+                        class,
+                        what,
+                        case: json!({"kind":"loopx-owned","flavour":F::NAME,"case":c,"program":c.program(F::NAME)}),
+                        order: (c.conns.len() * 100 + if c.step == EVERY { 0 } else { c.step + 1 }) as u64,
+                    });
+                };
+                let c0 = match run_owned::<F>(&base) {
+                    Ok(n) => n,
+                    Err((class, what)) => {
+                        report(out, &base, class, what);
+                        continue;
+                    }
+                };
+                for step in 0..c0 {
+                    for victim in 0..p.n as K {
+                        crate::progress::tick();
+                        let c = OCase { step, victim, ..base.clone() };
+                        out.stats.inc("evaluations");
+                        out.stats.inc("nontrivial");
+                        out.stats.inc("owned_container_scripts");
+                        if let Err((class, what)) = run_owned::<F>(&c) {
+                            report(out, &c, class, what);
+                        }
+                    }
+                }
+            }
+        }
+    }
+}
+
 #[derive(Serialize, Deserialize, Clone, Debug)]
 pub struct LParams {
     pub n: usize,
@@ -319,6 +498,9 @@ pub struct LParams {
     /// large mode: instead of all shapes, the hub families with these edge counts
     #[serde(default)]
     pub large: Vec<usize>,
+    /// container-owned mode (see `OCase`)
+    #[serde(default)]
+    pub owned: bool,
 }
 
 /// Hub-heavy multigraphs on 3 nodes with `k` edges (adjacency lists far longer
@@ -347,6 +529,9 @@ pub fn large_shapes(ks: &[usize]) -> Vec<Vec<(K, K)>> {
 
 pub fn sweep<F: Fl>(job: &Job, out: &mut Out) {
     let p: LParams = serde_json::from_value(job.params.clone()).expect("loopx params");
+    if p.owned {
+        return owned_sweep::<F>(job, &p, out);
+    }
     let prop = job.property.as_str();
     let all = if p.large.is_empty() { shapes::<F>(p.n, p.max_l) } else { large_shapes(&p.large) };
     let sops = script_ops(p.n);
@@ -439,6 +624,15 @@ pub fn replay<F: Fl>(prop: &str, case: &Value) -> Vec<Violation> {
     let mut out = Out::new();
     if case["kind"] == "loopx-shape" {
         return vec![];
+    }
+    if case["kind"] == "loopx-owned" {
+        let c: OCase = serde_json::from_value(case["case"].clone()).expect("loopx owned case");
+        println!("  program: {}", c.program(F::NAME));
+        match run_owned::<F>(&c) {
+            Ok(n) => println!("  completed: {} callbacks", n),
+            Err((class, what)) => out.report(Violation { property: prop.into(), engine: "loopx".into(), flavour: F::NAME.into(), class, what, case: case.clone(), order: 0 }),
+        }
+        return out.viols.into_values().collect();
     }
     let c: LCase = serde_json::from_value(case["case"].clone()).expect("loopx case");
     println!("  program: {}", c.program(F::NAME));
